@@ -2,6 +2,7 @@
 mod common;
 mod latt;
 mod probe;
+mod tess;
 
 fn main() {
     let args: Vec<String> = std::env::args().collect();
@@ -12,6 +13,7 @@ fn main() {
     let rest = &args[2..];
     let code = match args[1].as_str() {
         "replay-cells" => latt::main_replay(rest),
+        "tess" => tess::main_tess(rest),
         other => {
             eprintln!("unknown subcommand {}", other);
             2
